@@ -95,6 +95,17 @@ CLAIMS = {
              "reduced by those products. Assumes now - period does not wrap in u64 (envelope).",
         technique="guard-edge reachability (operator-exact) + writer inventory + value provenance on MIR",
         ref="6/C08"),
+    "C01": dict(
+        text="Decides only the structural clauses of 'paid exactly once, only when released': a share is added only after released == true "
+             "of the history entry with the same batch key as the wait entry; the id is queued for removal exactly there; the handler has "
+             "no success exit without the remover's success for info.sender and that id list, and the remover deletes every listed id; "
+             "amount x withdraw-rate pairing per token; payout wiring (denom, own-balance query, prev_hub_balance := balance - paid); "
+             "rates processed before the payable computation; the summing and releasing loops agree on start and on all three "
+             "continuation conditions; per-token arguments of the withdraw-rate computation; arrived coins = balance - recorded balance "
+             "with a negative difference an error. NOT decided: solvency (balance covers all matured claims), total paid <= arrived, "
+             "dust bounds, order independence across release groups (numeric over histories).",
+        technique="loop-body guard reachability, sibling-loop agreement, pairing/provenance on MIR expressions",
+        ref="6/C01"),
 }
 
 NA = {
